@@ -232,6 +232,8 @@ def run(ctx):
                     for ign in (False, True):
                         keys = KEYS if (n_in in (1, 3, nmax) and n_out in (1, 2, nmax - 1)) or not quick else ["int", "str"]
                         for kk in keys:
+                            if kk == "idxname" and ign:
+                                continue  # the key lives in the index, which ignore_index discards
                             full = kk == "int" and not ign
                             cases.append({"n_in": n_in, "n_out": n_out, "max_branch": mb, "method": method, "ignore_index": ign, "key": kk,
                                           "subsets": subsets_for(n_out, full) if kk in ("int", "str", "index", "idxname") else []})
